@@ -2197,12 +2197,17 @@ impl<'a> AstConverter<'a> {
         match type_info {
             TypeInfo::Array {
                 braces,
-                type_info,
-                access: _,
+                type_info: element_type,
+                access,
             } => {
+                if access.is_some() {
+                    return Err(ConvertError::TypeInfo {
+                        type_info: type_info.to_string(),
+                    });
+                }
                 self.work_stack.push(ConvertWork::MakeArrayType { braces });
 
-                self.push_work(type_info.as_ref());
+                self.push_work(element_type.as_ref());
             }
             TypeInfo::Basic(token_ref) => {
                 if let TokenType::Symbol { symbol } = token_ref.token_type() {
